@@ -359,6 +359,72 @@ def input_bursts(check, tier):
     s.done()
 
 
+def whole_sequences(check, tier):
+    """"a recognised sequence that arrives whole is reported as one keypress under its table name - never broken up": one burst (a single
+    write) in which a table sequence / multi-byte character lies across the 1024-byte read boundary at every inner offset; the keys
+    the real Input hands out (paste or single keypresses) must be exactly: the filler letters, THE sequence, the filler letters"""
+    import os
+    import curtsies.input as ci
+    toks = sorted(set(EV.CURTSIES_NAMES) | {"é".encode(), "€".encode(), "😀".encode(), "∂".encode()}, key=lambda b: (len(b), b))
+    allkeys = set(EV.CURTSIES_NAMES) | set(EV.CURSES_NAMES)
+    # (a sequence that is also the beginning of a longer recognised one is ambiguous next to more input - the statement's "unless")
+    toks = [t for t in toks if len(t) >= 2 and not any(k != t and k.startswith(t) for k in allkeys)
+            and not any(len(k) > len(t) and (t + b"xyz").startswith(k) for k in allkeys)]
+    if tier != "thorough":
+        toks = [t for k, t in enumerate(toks) if k % 7 == 0 or t in (b"\x1b[A", b"\x1bOP", b"\x1b[15~", b"\x1b[1;5A", "é".encode(), "€".encode())]
+    s = Suite(check, "C03.input_whole_sequences", f"{len(toks)} table sequences / multi-byte characters x every inner cut position at the 1024-byte "
+              "read boundary of one 1100-byte burst of letters, paste_threshold 8 and None (then key by key), BYTES and CURTSIES names, through "
+              "the real Input over a pipe: the keypresses are exactly letters, the sequence under its name, letters", bound="1100 bytes", exhaustive=False)
+
+    class _S:
+        def __init__(self, fd):
+            self.fd = fd
+
+        def fileno(self):
+            return self.fd
+    saved = ci.getpreferredencoding
+    ci.getpreferredencoding = lambda: "utf-8"
+    try:
+        for tok in toks:
+            for j in range(1, len(tok)):
+                for pt, mode in ((8, EV.Keynames.BYTES), (8, EV.Keynames.CURTSIES), (None, EV.Keynames.BYTES)):
+                    pre, post = b"a" * (1024 - j), b"xyz" + b"b" * (1100 - 1024 - len(tok) + j - 3)
+                    payload = pre + tok + post
+                    s.case((tok, j, pt, mode.name), sample=dict(token=tok.hex(), cut_after=j, paste_threshold=pt, names=mode.name) if len(s.samples) < 2 else None)
+                    r, w = os.pipe()
+                    keys, err = [], ""
+                    try:
+                        os.write(w, payload)
+                        inp = ci.Input(in_stream=_S(r), keynames=mode, paste_threshold=pt)
+                        for _ in range(len(payload) + 5):
+                            e = inp.send(0)
+                            if e is None:
+                                break
+                            keys += list(e.events) if isinstance(e, EV.PasteEvent) else [e]
+                    except Exception as ex:     # noqa: BLE001
+                        err = f"raised {type(ex).__name__}: {ex}"
+                    finally:
+                        os.close(r)
+                        os.close(w)
+                    if pt is None and not err and False:
+                        pass
+                    name = name_of(tok, "utf-8", mode)
+                    one = (lambda b: b) if mode is EV.Keynames.BYTES else (lambda b: b.decode())
+                    want = [one(bytes([c])) for c in pre] + [name] + [one(bytes([c])) for c in post]
+                    if pt is None:
+                        # (without a paste threshold a read that ends inside the sequence is the listed finding C08-read-ends-mid-character;
+                        #  only the paste path is judged for that cut)
+                        continue
+                    if err or keys != want:
+                        k = next((i for i, (a, b) in enumerate(zip(keys, want)) if a != b), min(len(keys), len(want)))
+                        s.fail("C03.input.sequence_broken_up", dict(token=tok.hex(), cut_after=j, paste_threshold=pt, names=mode.name),
+                               err or f"{tok!r} cut after {j} byte(s) by the read boundary came out as {keys[k:k + 4]} instead of {want[k:k + 2]} "
+                                      f"({len(keys)} keypresses, {len(want)} expected)")
+    finally:
+        ci.getpreferredencoding = saved
+    s.done()
+
+
 def attach_probes():
     import contracts.findkey as FK
     FK.find_key.probe = find_key_probe
@@ -369,6 +435,7 @@ def run(check, tier, seed):
     import contracts.findkey as FK
     attach_probes()
     verify(FK.find_key, tier, check, prefix="C03")
+    whole_sequences(check, tier)
     check.assume("stream level (deductive): Input._send.find_key consumes a non-empty prefix of the buffered bytes, never loses, duplicates "
                  "or reorders a byte, returns the decoder's answer for exactly the consumed bytes, cuts at the first recognised prefix, "
                  "returns None only for an empty buffer and raises only when no prefix is recognised (contracts/findkey.py); the decoder "
